@@ -138,6 +138,28 @@ impl Property for C05 {
             }
             a.push(if src.chance(5, 6) { AStep::Exec } else { AStep::Discard });
         }
+        // one run in five: the other client changes a watched string key and changes it back to exactly what it was, with
+        // a second WATCH of the same key before, between or after the two writes (or none) - what a repeated WATCH saw
+        // must keep counting whatever comes after it
+        let mut restore_b: Vec<(usize, Cmd)> = Vec::new();
+        if src.chance(1, 5) {
+            let w = a.iter().position(|s| matches!(s, AStep::Watch(_)));
+            if let Some(w) = w {
+                let kx = match &a[w] { AStep::Watch(ks) => ks[0].clone(), _ => unreachable!() };
+                if let Some(m) = a.iter().enumerate().position(|(i, s)| i > w && matches!(s, AStep::Multi)) {
+                    setup.push(vec![b("SET"), kx.clone(), b("A0")]);
+                    let change = vec![b("SET"), kx.clone(), b("B1")];
+                    let restore = vec![b("SET"), kx.clone(), b("A0")];
+                    match src.below(4) {
+                        0 => { restore_b.push((m, change)); restore_b.push((m, restore)); }                                                   // no second WATCH
+                        1 => { a.insert(m, AStep::Watch(vec![kx.clone()])); restore_b.push((m, change)); restore_b.push((m + 1, restore)); }   // WATCH between the two
+                        2 => { a.insert(m, AStep::Watch(vec![kx.clone()])); restore_b.push((m, change)); restore_b.push((m, restore)); }       // WATCH after both
+                        _ => { a.insert(w + 1, AStep::Watch(vec![kx.clone()])); restore_b.push((m + 1, change)); restore_b.push((m + 1, restore)); } // WATCH before both
+                    }
+                    rep.probe("watched_key_changed_and_restored");
+                }
+            }
+        }
         // B's commands and their gap positions (gap i = before A's step i; a.len() = after the last)
         let mut bcmds: Vec<(usize, Cmd)> = src.list(4, 3, 4, |s| {
             let pos = s.idx(a.len() + 1);
@@ -147,12 +169,13 @@ impl Property for C05 {
             };
             (pos, c)
         });
+        bcmds.extend(restore_b);
         bcmds.sort_by_key(|x| x.0);
         let overlap_cmd: Option<Cmd> = if overlap_mode { Some(gen1(src, &mut g)) } else { None };
         // every sixth run drives the simulation-path implementation instead: the executor's own MULTI/EXEC/
         // WATCH state (one executor = one client; the "other client" writes through the same executor while no
         // transaction is open), with stray EXEC/DISCARD outside MULTI thrown in
-        if src.below(6) == 0 { return self.run_executor_mode(src, ctx, &setup, &a, &bcmds); }
+        if src.below(6) == 0 { let mut r = self.run_executor_mode(src, ctx, &setup, &a, &bcmds); for (k, v) in &rep.probes { r.probe_n(k, *v); } return r; }
         let yield_bias = 1 + src.below(7);
         // fault: A's connection is closed (by the peer, possibly in the middle of a frame) while a transaction is open
         let cut: Option<(usize, bool)> = if src.chance(1, 8) { Some((src.idx(a.len()), src.chance(1, 2))) } else { None };
